@@ -630,6 +630,12 @@ def gen_reconnect(rng, knobs=None):
         opts['reconnect_on_close'] = rounds
     elif who == 'on_timeout':
         opts['reconnect_on_timeout'] = rounds
+    if k.get('p_connect_fail') and rng.random() < k['p_connect_fail']:
+        # the server is not reachable at the first (or the first two) attempt(s) to connect again; the application tries again from
+        # on_connection_error (the retry idiom) - eventually a connection is made and requests are served
+        opts['connect_fails'] = rng.choice([[2], [2], [2, 3], [3], [2, 4]])
+        opts['reconnect_on_error'] = 4
+        opts['connect_suspends'] = rng.choice([0, 0, 1, 2])
     prog = [['start'], ['pump']]
     nref = 0          # index the next request step will get
     stale = who == 'app' and rng.random() < k.get('p_stale_fragments', 0.25)
